@@ -39,7 +39,7 @@ def parseEv (t : String) : Option HEv :=
 def parseRes (t : String) : Option HRes :=
   if t == "ok" then some (.ok none) else if t == "idle" then some .idle
   else if t == "nohandle" then some .nohandle else if t == "blocked" then some .blocked
-  else if t == "panic" then some .panic else if t == "skipped" then some .skipped
+  else if t == "panic" then some .panic else if t == "skipped" then some .skipped else if t == "slow" then some .slow
   else if t.startsWith "ok" then (t.drop 2).toString.toNat?.map fun n => .ok (some n)
   else if t.startsWith "err" then (t.drop 3).toString.toNat?.map HRes.err
   else if t.startsWith "S" then
@@ -67,7 +67,7 @@ def fmtEv : HEv → String
 
 def fmtRes : HRes → String
   | .ok none => "ok" | .ok (some n) => s!"ok{n}" | .err k => s!"err{k}" | .idle => "idle"
-  | .nohandle => "nohandle" | .blocked => "blocked" | .panic => "panic" | .skipped => "skipped"
+  | .nohandle => "nohandle" | .blocked => "blocked" | .panic => "panic" | .skipped => "skipped" | .slow => "slow"
   | .stats a b c d => s!"S{a}.{b}.{c}.{d}"
   | .sinkStats a b c d => s!"K{a}.{b}.{c}.{d}"
 
@@ -138,7 +138,7 @@ def project (prop : String) (os : List HObs) : String :=
   match prop with
   | "C08" => per fun o => (if isEmitRes o.res then fmtRes o.res else "") ++ "|" ++
       evs (fun e => match e with | .enter _ _ | .timeout => true | _ => false) o
-  | "C09" => per fun o => (match o.res with | .ok none => "ok" | .blocked => "blocked" | .panic => "panic" | _ => "") ++ "|" ++
+  | "C09" => per fun o => (match o.res with | .ok none => "ok" | .blocked => "blocked" | .panic => "panic" | .slow => "slow" | _ => "") ++ "|" ++
       evs (fun e => match e with | .enter _ _ | .dropped | .timeout => true | _ => false) o
   | "C10" => per fun o => (if isEmitRes o.res || o.res == .blocked || o.res == .panic then fmtRes o.res else "") ++ "|" ++
       joinWith "," ((o.evs.filterMap fun e => match e with | .enter _ w => some (if w then "w" else "c") | _ => none))
@@ -164,7 +164,15 @@ def runQueue (prop : String) (f : List String) (obsS : String) : Verdict :=
   | [_, capS, hS, opsS] =>
     let cap := if capS == "u" then none else capS.toNat?
     let hh := hS == "1" || hS == "2"
-    match (splitList opsS ",").mapM parseOp, (obsS.splitOn ";").mapM parseObs1 with
+    -- `w<ms>` is idle time: no operation of the sink; nothing may happen during it
+    let opToks := splitList opsS ","
+    let obsToks := obsS.splitOn ";"
+    let idleBad := (opToks.zip obsToks).any fun (o, r) => o.startsWith "w" && r != "ok|-"
+    let keep := (opToks.zip obsToks).filter fun (o, _) => !o.startsWith "w"
+    let opToks := if opToks.any (·.startsWith "w") then keep.map (·.1) else opToks
+    let obsToks := if keep.length < obsToks.length && (splitList opsS ",").any (·.startsWith "w") then keep.map (·.2) else obsToks
+    if idleBad then ⟨false, obsS, "", some ("C08+C09", "while the sink was idle something happened (an event with no cause)"), ["idle"], false⟩ else
+    match opToks.mapM parseOp, obsToks.mapM parseObs1 with
     | some ops, some impl =>
       let impl := if opsS == "-" then [] else impl
       let model := modelRun cap hh ops
